@@ -185,15 +185,14 @@ func main() {
 	for i, n := 0, run.Pick(60, 1500); i < n; i++ {
 		jobs = append(jobs, job{kind: "queued", limit: limits[i%3], seed: seeds.Int63()})
 	}
-	// "slot-reuse" scripts (runSlotReuse) are NOT scheduled: over the rig's synchronous pipe the server's write
-	// of the final DATA frame returns only when the client has read it, so the unchanged server itself refuses
-	// the stream the client opens right behind END_STREAM in about 1 % of the attempts (the result of its
-	// asynchronous write is not yet on wroteFrameCh when the next HEADERS is processed). With a kernel socket
-	// the write returns before the client can have seen the bytes. Kept for VERIF_C13_SCRIPT experiments.
-	if os.Getenv("VERIF_C13_SLOT_REUSE") != "" {
-		for i := 0; i < 100; i++ {
-			jobs = append(jobs, job{kind: "slot-reuse", limit: limits[i%3], seed: seeds.Int63()})
-		}
+	// "slot-reuse" scripts (runSlotReuse), over loopback TCP: with the connection at its limit the client opens
+	// the next stream the moment it has read END_STREAM of another one. The unchanged server refuses such a
+	// stream now and then (D24, known finding: the result of the asynchronous write of the final DATA frame has
+	// not reached the serve loop when the next HEADERS is processed - over a kernel socket in about 0.4 % of the
+	// attempts under the race detector, over the synchronous pipe in about 1 %). Only that reaction on that
+	// stream is the known class; anything else in these legal scripts is a violation.
+	for i, n := 0, run.Pick(100, 1000); i < n; i++ {
+		jobs = append(jobs, job{kind: "slot-reuse", limit: limits[i%3], seed: seeds.Int63()})
 	}
 
 	if sd := os.Getenv("VERIF_C13_SCRIPT"); sd != "" { // debugging aid: "<random|legal> <limit> <seed>": run one script, print its trace
